@@ -125,3 +125,87 @@ Example C12_xml_doc_std_example :
   forallb (docb ex_sch ex_tabs std_valb) ex_forest = true /\
   std_xml_content (xml_print_all ex_sch ex_tabs ex_forest) = Some ([], to_generic ex_tabs ex_forest).
 Proof. vm_compute. repeat split. Qed.
+
+(* ------------------------------------------------------------------------------------------- *)
+(* JSON                                                                                          *)
+(* ------------------------------------------------------------------------------------------- *)
+From LY Require Import JsonText JsonDoc JsonDocP.
+
+(* [std_json_value] is a reader written from RFC 8259: ws, the six structural characters, values false / null / true /
+   object / array / number (the grammar of section 6) / string; a string token is cut at its closing quotation mark
+   (a reverse solidus escapes the next character) and read by StdText.std_json_string (escapes, surrogate pairs, strict
+   UTF-8). It shares nothing with the libyang models. [json_tree sch t jk f] is the RFC 7951 reading of the forest.
+
+   JSON: the rendering of the RFC 7951 value of a forest is valid RFC 8259 JSON and an independent reader recovers
+   exactly that value: member structure and order, module qualifiers exactly where the module changes, int64 / uint64 /
+   decimal64 / strings as strings, other integers and booleans as literals, empty as [null], metadata objects per RFC
+   7952, every string as the tree holds it. Data hypothesis: strings are valid UTF-8 without NUL ([utf8_nonul], the
+   hypothesis of C12_json_string_std).
+   PARTIAL in the same sense as C01_json_doc_roundtrip_partial: about [json_doc]; that the transcription of
+   printer_json.c prints exactly [json_doc] on canonical forests is checked by the correspondence run (field D), not
+   proved. *)
+Theorem C12_json_doc_std_partial :
+  forall sch t jk f,
+    tabs_okb sch t = true -> Canon sch f -> Forall (JDocN sch t jk utf8_nonul) f ->
+    std_json_value (json_doc sch t jk f) = Some (json_tree sch t jk f).
+Proof. exact json_doc_std_proof. Qed.
+Print Assumptions C12_json_doc_std_partial.
+
+Theorem C12_json_doc_std_checked_partial :
+  forall sch t jk f,
+    tabs_okb sch t = true -> canonb sch None f = true -> forallb (jdocb sch t jk nonulb) f = true ->
+    std_json_value (json_doc sch t jk f) = Some (json_tree sch t jk f).
+Proof.
+  intros sch t jk f Ht HC HD. apply json_doc_std_proof; [exact Ht|apply canonb_spec, HC|].
+  rewrite forallb_forall in HD. apply Forall_forall. intros x Hx. apply (jdocb_spec sch t jk nonulb utf8_nonul x nonulb_spec), HD, Hx.
+Qed.
+Print Assumptions C12_json_doc_std_checked_partial.
+
+(* in trim mode the printer's state machine does NOT print the rendering of the selected part, and what it prints is
+   not JSON: FINDING json-trim-leaflist-meta. Witness: leaf-list ll (defaults -5, -7) with the instances -9 (carrying
+   metadata) and -7, then a container; the selection drops the second instance (an explicit node with a default value). *)
+Theorem C12_json_trim_refuted :
+  exists sch t jk (sel : dnode -> bool) f,
+    tabs_okb sch t = true /\ canonb sch None f = true /\ forallb (jdocb sch t jk nonulb) f = true /\
+    std_json_value (json_print sch t jk sel f) = None /\
+    json_print sch t jk sel f <> json_doc sch t jk (prune sel f).
+Proof.
+  exists [(0, mk_sinfo KLeafList None [] true true [[45; 53]; [45; 55]] [] false 0 None OInt);
+          (1, mk_sinfo (KCont false) None [] false true [] [] false 0 None OBytes);
+          (2, mk_sinfo KLeaf (Some 1) [] false true [] [] false 0 None OBytes)],
+         (mk_doctabs [(0, (0, [108; 108])); (1, (0, [99])); (2, (0, [120]))] [(0, mk_modinfo [109; 49] [109; 49] [117; 114; 110; 58; 109; 49])]),
+         [(0, JNum); (2, JStr)],
+         (fun n => negb (beq_bytes (d_val n) [45; 55])),
+         [DN 0 [45; 57] false [([109; 49; 58; 110; 111; 116; 101], [78])] []; DN 0 [45; 55] false [] [];
+          DN 1 [] false [] [DN 2 [97] false [] []]].
+  vm_compute. repeat split; discriminate.
+Qed.
+Print Assumptions C12_json_trim_refuted.
+
+Definition exj_sch : schema :=
+  [(0, mk_sinfo (KCont false) None [] false true [] [] false 0 None OBytes);
+   (1, mk_sinfo KLeaf (Some 0) [] false true [] [] false 0 None OBytes);
+   (2, mk_sinfo KList (Some 0) [3] true true [] [] false 0 None OInt);
+   (3, mk_sinfo KLeaf (Some 2) [] false true [] [] false 0 None OInt);
+   (4, mk_sinfo KLeafList (Some 2) [] true true [] [] false 0 None OBytes);
+   (5, mk_sinfo KLeaf (Some 2) [] false true [] [] false 0 None OBool);
+   (6, mk_sinfo KLeaf None [] false true [] [] false 0 None OBytes)].
+Definition exj_tabs : doctabs :=
+  mk_doctabs [(0, (0, [99])); (1, (0, [108; 102])); (2, (0, [108])); (3, (0, [107])); (4, (0, [108; 108])); (5, (0, [98])); (6, (0, [101]))]
+             [(0, mk_modinfo [109; 49] [109; 49] [117; 114; 110; 58; 109; 49])].
+Definition exj_kinds : list (sid * jkind) := [(1, JStr); (3, JNum); (4, JStr); (5, JBool); (6, JEmpty)].
+Definition exj_forest : forest :=
+  [DN 0 [] false []
+      [DN 1 [97; 34; 92; 13; 9; 10; 1; 127; 98] false [([109; 49; 58; 110; 111; 116; 101], [120])] [];
+       DN 2 [] false [([109; 49; 58; 110; 111; 116; 101], [34; 9])]
+          [DN 3 [45; 49; 50] false [] []; DN 4 [] false [] []; DN 4 [195; 169] false [([109; 49; 58; 110; 111; 116; 101], [])] [];
+           DN 5 [116; 114; 117; 101] false [] []];
+       DN 2 [] false [] [DN 3 [55] false [] []]];
+   DN 6 [] false [] []].
+
+Example C12_json_doc_std_example :
+  tabs_okb exj_sch exj_tabs = true /\ canonb exj_sch None exj_forest = true /\
+  forallb (jdocb exj_sch exj_tabs exj_kinds nonulb) exj_forest = true /\
+  json_print_all exj_sch exj_tabs exj_kinds exj_forest = json_doc exj_sch exj_tabs exj_kinds exj_forest /\
+  std_json_value (json_print_all exj_sch exj_tabs exj_kinds exj_forest) = Some (json_tree exj_sch exj_tabs exj_kinds exj_forest).
+Proof. vm_compute. repeat split. Qed.
